@@ -986,5 +986,22 @@ theorem degree_toPoly {f : UPoly α} (hf : WF L f) (h0 : toPoly L f ≠ 0) :
     (toPoly L f).degree = (ld f : WithBot ℕ) := by
   rw [degree_eq_natDegree h0, natDegree_toPoly L hf]
 
+/-- the recursive `toPoly` agrees with the "sum of monomials over `zipIdx`" description -/
+theorem toPoly_eq_sum_aux (f : UPoly α) (n : Nat) :
+    ((f.zipIdx n).map fun (ci : α × Nat) => monomial ci.2 (L.embed ci.1)).sum =
+      X ^ n * toPoly L f := by
+  induction f generalizing n with
+  | nil => simp
+  | cons c t ih =>
+    rw [List.zipIdx_cons, List.map_cons, List.sum_cons, ih, toPoly_cons,
+      ← C_mul_X_pow_eq_monomial, pow_succ]
+    ring
+
+theorem toPoly_eq_sum (f : UPoly α) :
+    toPoly L f = (f.zipIdx.map fun (c, i) => monomial i (L.embed c)).sum := by
+  have := toPoly_eq_sum_aux L f 0
+  simp only [pow_zero, one_mul] at this
+  exact this.symm
+
 end UPoly
 end Algobra
